@@ -434,6 +434,18 @@ class Engine:
             cls = V.ExtClass(cls.name)
         if isinstance(cls, V.ExtClass):
             return self.lib.isinstance_ext(ctx, v, cls.name)
+        if isinstance(cls, V.ClassTagV):
+            # isinstance(v, type(y)): the dynamic class of v is a subclass of the class whose tag is given
+            if isinstance(v, OptV):
+                return speclib_and(self.b_not(v.is_none), self.isinstance_of(ctx, v.val, cls))
+            if not isinstance(v, Obj):
+                return False
+            cands = [v.cls] if v.exact else v.cls.all_subclasses()
+            alts = []
+            for c1 in cands:
+                for c2 in c1.mro():
+                    alts.append(z3.And(self.tag_fn(v.ref) == self.class_id(c1), cls.term == self.class_id(c2)))
+            return z3.Or(*alts) if alts else False
         if isinstance(cls, V.ClassVal):
             cls = cls.cls
         if isinstance(v, Obj):
@@ -525,7 +537,9 @@ class Engine:
             if isinstance(other, (z3.ExprRef, Obj, RecV, SymSet, SymSeq, PyList, tuple, int, str, bool, V.EnumV)):
                 return False
             raise EngineLimit("== None of %r" % (other,))
-        if isinstance(a, z3.ExprRef) or isinstance(b, z3.ExprRef):
+        if isinstance(a, z3.ExprRef) or isinstance(b, z3.ExprRef) or (
+                isinstance(a, V.FractionV) and isinstance(b, (V.FractionV, int))) or (
+                isinstance(b, V.FractionV) and isinstance(a, int)):
             ta, tb = self.coerce_pair(a, b)
             if ta is None:
                 return False
